@@ -50,6 +50,10 @@ CLAIMED = {
   "must-pass-through on accept returns (nil-edge collection over the dominating conditions); operand-role checks on the verification calls; encoder/comparator field coverage; hash-coverage of fields read in the execution cone; dominance of VerifyTransaction over every admission call site with one-level wrapper inlining",
   "The admission pipeline is complete on every path: VerifyTransaction accepts only via verifyETHTx or after chain-id, hash and signature checks; the signature check needs recovery, secp256k1 verification and source==address; the wrapped-Ethereum path recovers the sender under this chain's EIP-155 id and compares every converted field; every Transaction field read by execution is covered by GenHash or a reviewed exclusion; all admission call sites (network peer path and three gateway paths) are gated. ECDSA soundness and bit-flip rejection are not decided.",
   "Trusted: libsecp256k1 (cgo) and the upstream EIP-155 signer; go/ssa."),
+ "C08": ("3/C08",
+  "allocation-after-check dominance; read-after-willRead; non-wrapping form of bound comparisons on input-derived lengths; accept-edge check of the trailing-data test; panic triage over the decode cone; census of (sentinel, operator, constant) canonical-form guards and sibling agreement of the two tag parsers; cache-key field coverage",
+  "Totality and the canonical-error skeleton decided structurally: every input-sized allocation follows a successful Kind(); every read follows willRead; bound tests cannot wrap; DecodeBytes rejects trailing bytes; no unreviewed explicit panic in the decode cone; both tag parsers keep the same case boundaries and the canonical-form guards (size<56, leading zero, single byte <0x80) are all present; the codec cache is keyed by (type, tags). Round-trip equality and uniqueness of encodings for all values, and the encoder, are not decided.",
+  "Trusted: reflect / io.Reader semantics; the reference guard set in rules/c08.go was recorded from the reviewed tree."),
 }
 
 NOT_YET = {}
